@@ -46,6 +46,10 @@ def check(rep, tier, seed):
         hts = bcf_encode_hts(vcf)
         forms["bcf-hts-hdr-unix-mtime"] = bgzf_compress_hdr(hts, mtime=1, xfl=4, os_=3)
         forms["bcf-hts-raw"] = hts
+        # other legal spellings of the same BCF: minor version 1 in the magic (htsjdk), a contig dictionary with explicit IDX
+        forms["bcf-hts-raw-v2.1"] = bcf_encode_hts(vcf, minor=1)
+        forms["bcf-hts-v2.1"] = bgzf_compress(forms["bcf-hts-raw-v2.1"])
+        forms["bcf-hts-raw-idx"] = bcf_encode_hts(vcf, idx_reversed=True)
         forms["bcf-hts"] = bgzf_compress(hts)
         forms["bcf-hts-tiny-blocks"] = bgzf_compress(hts, sizes=[33, 500, 9], empty_every=4)
         raw = vcf_to_bcf(vcf_nd, "c12_%d" % k, "raw")
